@@ -650,6 +650,10 @@ def rule_d(ctx):
     # credit frames are not subject to the lease: REQUEST_N is never held and consumes no allowance
     from .c14 import rule_gate_scope
     rule_gate_scope(ctx)
+    # ... nor to reassembly: what the receive path sends through the fragment cache is exactly the fragmentable frame
+    # classes (REQUEST_N, a RequestFrame by inheritance, is not one of them) (shared C03.c)
+    from .c03 import rule_predicate_is_the_mixin
+    rule_predicate_is_the_mixin(ctx)
 
 
 def rule_genpub(ctx):
@@ -661,4 +665,4 @@ def rule_genpub(ctx):
     rule_failure_stops_delivery_first(ctx, 'C07.e')
 
 
-RULES = [('C06.a', rule_a), ('C06.b', rule_b), ('C06.c', rule_c), ('C06.a', rule_g), ('C06.d', rule_e), ('C06.e+C20.g+C20.i+C20.k', rule_f), ('C07.e', rule_genpub), ('C05.a+C05.b+C14.f', rule_d)]
+RULES = [('C06.a', rule_a), ('C06.b', rule_b), ('C06.c', rule_c), ('C06.a', rule_g), ('C06.d', rule_e), ('C06.e+C20.g+C20.i+C20.k', rule_f), ('C07.e', rule_genpub), ('C05.a+C05.b+C14.f+C03.c', rule_d)]
